@@ -6694,6 +6694,11 @@ impl RelationalEngine {
                             change.column
                         ));
                     }
+                    // only maintain a B-tree index that exists: an entry written for a column without
+                    // one would survive a later create_btree_index and make range scans return the row twice
+                    if !self.has_btree_index(table, &change.column) {
+                        continue;
+                    }
                     if let Err(e) =
                         self.btree_index_add(table, &change.column, &change.old_value, *row_id)
                     {
@@ -6725,6 +6730,10 @@ impl RelationalEngine {
                 for (col, value) in index_entries {
                     if let Err(e) = self.index_add(table, col, value, *row_id) {
                         errors.push(format!("Failed to add index entry for {table}.{col}: {e}"));
+                    }
+                    // only maintain a B-tree index that exists (see UpdatedRow above)
+                    if !self.has_btree_index(table, col) {
+                        continue;
                     }
                     if let Err(e) = self.btree_index_add(table, col, value, *row_id) {
                         errors.push(format!(
